@@ -13,7 +13,8 @@ DEMO=$(python3 -c 'import json,sys; print(json.load(open(sys.argv[1])).get("demo
 CHECKS=("$@"); [ ${#CHECKS[@]} -eq 0 ] && CHECKS=("$PROP")
 TIER="${SEED_TIER:-quick}"
 WT="$(mktemp -d /var/tmp/seedwt-XXXXXX)"; rmdir "$WT"
-git -C /repo worktree add -q --detach "$WT" HEAD || exit 2
+for try in 1 2 3 4 5; do git -C /repo worktree add -q --detach "$WT" HEAD 2>/dev/null && break; sleep $((try*2)); done
+[ -d "$WT" ] || exit 2
 cleanup() { git -C /repo worktree remove --force "$WT" 2>/dev/null; rm -rf "$WT"; }
 trap cleanup EXIT
 status=0
